@@ -336,8 +336,13 @@ def _run_case(case: dict) -> dict:
                     inc("unnamed_nodes")
                 for o in n.outputs:
                     if not o.uses() and not o.is_graph_output() and ur.random() < 0.5:
+                        kept = o.const_value.name if o.const_value is not None else None
                         o.name = None
                         inc("unnamed_unused_outputs")
+                        if o.const_value is not None and ur.random() < 0.6:
+                            # ... while the constant it carries keeps (gets back) a name of its own
+                            o.const_value.name = kept or "kept_tensor_name"
+                            inc("unnamed_outputs_with_named_constant")
     if model.functions and Streams(case["run_seed"]).rng("function-default-graphs").random() < 0.4:
         # a function attribute parameter whose DEFAULT value is a graph (legal: attribute_proto of the FunctionProto)
         for fi, f in enumerate(model.functions.values()):
